@@ -119,6 +119,15 @@ class XmlModifier(ModelBase):
         if cls.__namespace__ in PREFMAP:
             cls.__namespace__ = default_ns
 
+    @staticmethod
+    def validate_string(cls, value):
+        # the constraints are those of the wrapped type
+        return cls.type.validate_string(cls.type, value)
+
+    @staticmethod
+    def validate_native(cls, value):
+        return cls.type.validate_native(cls.type, value)
+
     @classmethod
     def _fill_empty_type_name(cls, parent_ns, parent_tn, k):
         cls.__namespace__ = parent_ns
